@@ -327,6 +327,19 @@ def describe(o):
     return 'is fine but %s fails' % o.kind
 
 
+def describe_tree(tree):
+    """The sandbox of a failing run in readable form: messages, programs (with mode / link target), directories."""
+    out = {}
+    for rel, d in sorted(tree.items()):
+        if d is None:
+            out[rel + '/'] = 'directory'
+        elif isinstance(d, tuple):
+            out[rel] = 'link to the exec helper' if d[0] == 'symlink' else 'file mode %o: %r' % (d[2], d[1]) if d[0] == 'file' else repr(d)
+        else:
+            out[rel] = d.decode('latin-1')
+    return out
+
+
 def run_shape(tools, W, shape):
     scen = shape.spec().build(tools)
     try:
@@ -351,6 +364,7 @@ def run_shape(tools, W, shape):
             if conform != 'ok':
                 conform += ': ' + detail[:300]
         return {'shape': shape.name, 'program': shape.prog.tag, 'outcome': repr(shape.prog.outcome), 'problems': probs, 'conform': conform,
+                'tree': describe_tree(shape.spec().tree) if probs else None,
                 'status': r.status, 'stderr': r.err[-300:].decode('latin-1').replace(scen.root, R), 'plan': plan, 'config': shape.conf,
                 'pinned': shape.expectation()['pinned']}
     finally:
@@ -455,7 +469,8 @@ def process_stage(rep, tools, W, rng):
             nbad += 1
             if nbad <= 8:
                 rep.finding('unlisted', {'stage': 'cmdstatus', 'shape': r['shape'], 'program': r['program'], 'outcome': r['outcome'],
-                                         'fault_plan': r['plan'], 'config': r['config'], 'exit_status': r['status'], 'stderr': r['stderr'],
+                                         'fault_plan': r['plan'], 'config': r['config'], 'sandbox': r['tree'], 'environment': 'PATH=@R@/bin:/usr/bin:/bin',
+                                         'exit_status': r['status'], 'stderr': r['stderr'],
                                          'what': r['problems'][:6], 'pinned_current_behaviour': r['pinned'],
                                          'replay_cmd': 'python3 tools/check.py %s --replay <this file>' % rep.prop})
         elif r['conform'] not in ('ok', 'skipped'):
